@@ -28,7 +28,7 @@ m = dict(version=1, setup_cmd="./setup.sh",
                        kind_free_text="AST -> SMT verification-condition generators for unbounded structure: sparse kernels (dict = domain/value arrays, pointwise loop summaries; 70 kernels, arbitrary vector size; finite-set lemma schema proved in Lean 4 + Mathlib, lemmas/FinsetCard.lean) and the flowsheet heap (Burstall-Bornat memory model, quantified well-formedness invariant, inductive loop invariants, modular application of proved contracts at call sites; 26 operations over an arbitrary heap); z3 (E-matching, MBQI), every discharged VC re-checked by cvc5 (engine/vcg/second.py); finite-domain models replayed on real objects")],
          checks=[CHECKS[p] for p in props if p in CHECKS],
          not_applicable=[dict(property_id=p, reason=NA[p]) for p in props if p in NA],
-         notes="See DESIGN.md. Exit codes: 0 held, 1 violation (VIOLATION line + replay file), 2 undecided, 3 checker error.")
+         notes="See DESIGN.md. Exit codes: 0 held, 1 violation (VIOLATION line + replay file), 2 undecided, 3 checker error. Thorough tier: wall-clock budget per phase (VERIF_THOROUGH_BUDGET_S, default 1200 s, 0 = none); what it leaves unexplored is printed (BUDGET line) and counted in the evidence (DESIGN 8.8).")
 json.dump(m, open(os.path.join(HERE, 'MANIFEST.json'), 'w'), indent=1)
 import jsonschema
 jsonschema.validate(m, json.load(open('/root/.vp/MANIFEST.schema.json')))
